@@ -249,3 +249,60 @@ pub fn body_cfg<S: Src>(s: &mut S, fmt: Option<&'static str>, cfg: Cfg) {
     std::mem::forget(format);
     std::mem::forget(ts);
 }
+
+/// C10, string and float formats: for **every** ASCII format string of `len`
+/// bytes, `convert_string` selects the documented native type for the
+/// recognised formats and `String` for everything else; `convert_number` selects
+/// f32 for "float" and f64 for everything else.
+pub fn format_tables<S: Src>(s: &mut S, len: usize) {
+    let mut ts = hooks::empty_type_space();
+    let mut buf = [0u8; 10];
+    let mut i = 0;
+    while i < len {
+        let b = s.u8();
+        s.assume(b < 0x80);
+        buf[i] = b;
+        i += 1;
+    }
+    // SAFETY: ASCII
+    let text = unsafe { std::str::from_utf8_unchecked(&buf[..len]) };
+    #[cfg(not(kani))]
+    s.note("format", &text);
+    let is = |w: &str| name_is(text, w);
+    let want = if is("uuid") {
+        "::uuid::Uuid"
+    } else if is("date") {
+        "::chrono::naive::NaiveDate"
+    } else if is("date-time") {
+        "::chrono::DateTime<::chrono::offset::Utc>"
+    } else if is("ip") {
+        "::std::net::IpAddr"
+    } else if is("ipv4") {
+        "::std::net::Ipv4Addr"
+    } else if is("ipv6") {
+        "::std::net::Ipv6Addr"
+    } else {
+        "String"
+    };
+    let format = Some(text.to_string());
+    let got = hooks::convert_string_format(&mut ts, &format);
+    #[cfg(not(kani))]
+    s.note("convert_string", &got);
+    match &got {
+        Ok(name) => assert!(name_is(name, want), "C10: string format does not map to its documented type (unrecognised formats must degrade to String)"),
+        Err(()) => panic!("C10: string schema with a format rejected"),
+    }
+    let num = hooks::convert_number(&ts, &None, &None, &format);
+    #[cfg(not(kani))]
+    s.note("convert_number", &num);
+    let want_num = if is("float") { "f32" } else { "f64" };
+    match &num {
+        Ok(name) => assert!(name_is(name, want_num), "C10: number format does not map to its documented type (unrecognised formats must degrade to f64)"),
+        Err(()) => panic!("C10: number schema with a format rejected"),
+    }
+    crate::cover!(s, !name_is(want, "String"), "recognised string format");
+    std::mem::forget(got);
+    std::mem::forget(num);
+    std::mem::forget(format);
+    std::mem::forget(ts);
+}
